@@ -122,7 +122,8 @@ def r1(ctx):
 def r2(ctx):
     f = ctx.func(f"{ST}.commit")
     g = ctx.cfg(f)
-    loops = [n for n in walk_local(f.node) if isinstance(n, ast.For) and "._connections" in unparse(n.iter)]
+    sb = single_binds(f.node)
+    loops = [n for n in walk_local(f.node) if isinstance(n, ast.For) and "._connections" in unparse(expand(n.iter, sb))]
     ctx.require(loops, "commit() has no loop over the connections")
     lp = loops[0]
     conn_commit = [nid for nid in call_nodes(g, lambda c: isinstance(c.func, ast.Attribute) and c.func.attr == "commit" and dotted(c.func.value) != "self._parent")
@@ -159,7 +160,8 @@ def r3(ctx):
 
 @R.rule("C33-R4", floor=13, template="T-SIBLING/T-FRESH",
         desc="_new/_deleted/_dirty/_key_switches: fresh WeakKeyDictionary at a transaction boundary (aliasing the "
-             "parent only on the non-boundary arm), all four merged into the parent on a savepoint release, deleted "
+             "parent only on the non-boundary arm), all four merged into the parent on a savepoint release (helpers called by "
+             "_remove_snapshot are followed; map aliases and boolean locals resolved), deleted "
              "objects detached on every root commit, all four consumed by _restore_snapshot")
 def r4(ctx):
     ts = ctx.func(f"{ST}._take_snapshot")
@@ -433,7 +435,8 @@ def _imap_call(c: ast.Call, methods, var: str, imaps=()) -> bool:
 @R.rule("C33-R6", floor=2, template="T-PATH",
         desc="the identity map files a state under state.key: wherever orm/session.py assigns a new key to a state that it "
              "also discards from / registers in the identity map, within one pass the discard (which looks the state up "
-             "under its current key) precedes the key store and the re-registration follows it")
+             "under its current key) precedes the key store and the re-registration follows it (a private helper that assigns the "
+             "key of a state handed to it is summarised: its call is the key store of the caller)")
 def r6(ctx):
     m = ctx.index.module(SESSION)
     pm = m.parents()
@@ -603,7 +606,17 @@ def r8(ctx):
                     and any(k.arg == "upto" and dotted(k.value) == "self" for k in it.keywords) and isinstance(lp.target, ast.Name)):
                 continue
             v = lp.target.id
-            called = sorted({c.func.attr for c in calls_in(lp) if isinstance(c.func, ast.Attribute) and isinstance(c.func.value, ast.Name) and c.func.value.id == v})
+            called = {c.func.attr for c in calls_in(lp) if isinstance(c.func, ast.Attribute) and isinstance(c.func.value, ast.Name) and c.func.value.id == v}
+            # `self._end_inner(inner)`: what the helper calls on the parameter that receives the inner transaction
+            for c in calls_in(lp):
+                if isinstance(c.func, ast.Attribute) and dotted(c.func.value) == "self" and c.func.attr in cls.methods:
+                    h = cls.methods[c.func.attr]
+                    b = bind_args(h.node, c, True)
+                    for p_, a in (b or {}).items():
+                        if isinstance(a, ast.Name) and a.id == v:
+                            ctx.functions_analysed.add(h.key)
+                            called |= {c2.func.attr for c2 in calls_in(h.node) if isinstance(c2.func, ast.Attribute) and isinstance(c2.func.value, ast.Name) and c2.func.value.id == p_}
+            called = sorted(called)
             ctx.require(called, f"{f.key}: the walk over inner transactions calls nothing on `{v}`")
             n += 1
             good = any(c in consumers for c in called)
@@ -627,13 +640,17 @@ def r5(ctx):
     w = g.always_preceded(disp[0], link) if link else ["no `session._transaction = self._parent` store"]
     ctx.check(w is None, f"{f.key}:relink-transaction", "after_transaction_end can be dispatched before session._transaction = self._parent", "re-linked before the event", f.loc, w)
     nest = [n for n in attr_store_nodes(g, "_nested_transaction", lambda v: dotted(v) == "self._previous_nested_transaction") if dotted(g.node(n).stmt.targets[0].value) in sess]
-    good = bool(nest) and all(("self.nested", True) in guard_atom_set(g, n) for n in nest) and not (set(nest) & g.reachable(disp, include_starts=False))
-    # on the nested arm the store precedes the dispatch: no path test(true-branch) -> dispatch avoiding the store
+    good = bool(nest) and all(("self.nested", True) in resolved_atom_set(g, f.node, n, aliases=True) for n in nest) and not (set(nest) & g.reachable(disp, include_starts=False))
+    # on the nested arm the store precedes the dispatch: no path test(nested-outcome) -> dispatch avoiding the store
     if good:
-        tests = [t.id for t in g.nodes if t.kind == "test" and unparse(t.stmt.test) == "self.nested"]
-        for t in tests:
-            trues = [b for b, lab in g.succ[t] if lab == "true"]
-            if g.witness(trues, disp, avoid=nest) is not None and not (set(trues) & set(nest)):
+        from ..astutil import test_atoms as _ta
+        bb = bool_binds(f.node, aliases=True)
+        for t in [t for t in g.nodes if t.kind == "test"]:
+            at = _ta(expand(t.stmt.test, bb), True)
+            if len(at) != 1 or at[0][0] != "self.nested":
+                continue
+            arm = [b for b, lab in g.succ[t.id] if lab == ("true" if at[0][1] else "false")]
+            if g.witness(arm, disp, avoid=nest) is not None and not (set(arm) & set(nest)):
                 good = False
     ctx.check(good, f"{f.key}:relink-nested", "a savepoint's close() does not restore session._nested_transaction before the event", "restored when nested, before the event", f.loc)
     closed = [n for n, s in _state_stores(g) if s == "CLOSED"]
@@ -807,3 +824,24 @@ R.mutant("key-switch-helper-nobody-discards", SESSION, _switch_helper(_SW_CALL, 
 R.mutant("key-switch-helper-forgets-original-key", SESSION,
          _switch_helper(_SW_CALL, "        self.identity_map.safe_discard(state)\n        trans = self._transaction\n        assert trans is not None\n        key_switches = trans._key_switches\n"
                                   "        key_switches[state] = (state.key, instance_key)\n        state.key = instance_key\n"), "C33-R4")
+
+# further shapes (rob-B2): connections / `nested` read through a local, the walk over inner transactions delegated to a helper
+R.mutant("benign-commit-connections-in-local", SESSION,
+         sub("            for conn, trans, should_commit, autoclose in set(\n                self._connections.values()\n            ):\n                if should_commit:\n                    trans.commit()\n",
+             "            open_connections = set(self._connections.values())\n            for conn, trans, should_commit, autoclose in open_connections:\n                if should_commit:\n                    trans.commit()\n"), None)
+_CL_OLD = "        if self.nested:\n            self.session._nested_transaction = (\n                self._previous_nested_transaction\n            )\n\n        self.session._transaction = self._parent\n"
+R.mutant("benign-close-nested-in-local", SESSION,
+         sub(_CL_OLD, "        is_savepoint = self.nested\n        self.session._transaction = self._parent\n        if not is_savepoint:\n            pass\n        else:\n"
+                      "            self.session._nested_transaction = (\n                self._previous_nested_transaction\n            )\n"), None)
+R.mutant("close-nested-in-local-restored-on-wrong-arm", SESSION,
+         sub(_CL_OLD, "        is_savepoint = self.nested\n        self.session._transaction = self._parent\n        if not is_savepoint:\n"
+                      "            self.session._nested_transaction = (\n                self._previous_nested_transaction\n            )\n"), "C33-R5")
+_RB_INNER = ("                if subtransaction.nested:\n                    # hand the bookkeeping of a still-open SAVEPOINT to its\n                    # parent so that the snapshot restored below covers it\n"
+             "                    subtransaction._remove_snapshot()\n                subtransaction.close()\n")
+_RB_HEAD = "    def _get_subject(self) -> Session:\n        return self.session\n"
+R.mutant("benign-rollback-ends-inner-in-helper", SESSION,
+         chain(sub(_RB_INNER, "                self._end_inner(subtransaction)\n"),
+               sub(_RB_HEAD, "    def _end_inner(self, inner: SessionTransaction) -> None:\n        if inner.nested:\n            inner._remove_snapshot()\n        inner.close()\n\n" + _RB_HEAD)), None)
+R.mutant("rollback-inner-helper-only-closes", SESSION,
+         chain(sub(_RB_INNER, "                self._end_inner(subtransaction)\n"),
+               sub(_RB_HEAD, "    def _end_inner(self, inner: SessionTransaction) -> None:\n        inner.close()\n\n" + _RB_HEAD)), "C33-R8")
